@@ -6,6 +6,7 @@ import (
 	"sort"
 	"strings"
 	"sync"
+	"syscall"
 	"time"
 
 	"github.com/wmnsk/go-pfcp/ie"
@@ -394,7 +395,19 @@ func c15Driver(res *vh.Result, ci int, rng *vh.Rng, count int) {
 		p := all[rng.Intn(len(all))]
 		g := vh.Grp(vh.TRemoveURR, vh.URRID(p.urr))
 		pi, _ := ie.Parse(g.Bytes())
-		d.G.RemoveURR(p.seid, pi)
+		// a third of the removals is refused by the kernel (DEL_URR fails): the URR is given up by the
+		// control plane all the same (its session drops it / ends), so it must leave the periodic set
+		refuse := rng.Chance(1, 3)
+		if refuse {
+			d.K.SetFailCmd(vh.KCmdDelURR, syscall.ENOMEM)
+		}
+		_, rerr := d.G.RemoveURR(p.seid, pi)
+		if refuse {
+			d.K.SetFailCmd(vh.KCmdDelURR, 0)
+			if rerr != nil {
+				res.Count("removals_refused_by_the_kernel", 1)
+			}
+		}
 		for _, s := range model {
 			delete(s, p)
 		}
